@@ -20,6 +20,10 @@ thread_local! {
     /// when non-zero: the `Clone::clone` call on an item or priority whose ordinal reaches this value panics
     pub static CLFUSE: Cell<u64> = Cell::new(0);
     pub static CLCOUNT: Cell<u64> = Cell::new(0);
+    /// when non-zero: the `Drop::drop` of an item or priority whose ordinal reaches this value panics (unless the thread is
+    /// already unwinding: a second panic would abort by Rust's rules, whatever the crate does)
+    pub static DRFUSE: Cell<u64> = Cell::new(0);
+    pub static DRCOUNT: Cell<u64> = Cell::new(0);
     /// number of live `SItem` + `Pri` values (for leak / double-drop detection)
     pub static LIVE: Cell<i64> = Cell::new(0);
     /// total number of drops observed
@@ -61,6 +65,18 @@ pub fn cl_tick() {
     if CLFUSE.with(|f| f.get()) == n {
         CLFUSE.with(|f| f.set(0));
         panic!("injected: clone panic");
+    }
+}
+
+/// called by every `Drop::drop` of an item or a priority (after the live-object accounting)
+pub fn dr_tick() {
+    let n = DRCOUNT.with(|c| {
+        c.set(c.get() + 1);
+        c.get()
+    });
+    if DRFUSE.with(|f| f.get()) == n && !std::thread::panicking() {
+        DRFUSE.with(|f| f.set(0));
+        panic!("injected: drop panic");
     }
 }
 
@@ -121,6 +137,7 @@ impl Drop for SItem {
             LIVE.with(|l| l.set(l.get() - 1));
             DROPS.with(|d| d.set(d.get() + 1));
         }
+        dr_tick();
     }
 }
 impl PartialEq for SItem {
@@ -199,6 +216,7 @@ impl Drop for Pri {
             LIVE.with(|l| l.set(l.get() - 1));
             DROPS.with(|d| d.set(d.get() + 1));
         }
+        dr_tick();
     }
 }
 
